@@ -1057,6 +1057,22 @@ func emitTranslated(p *pkgInfo) (out string, err error) {
 	t := &trans{p: p, ren: map[string]string{}, sigs: map[string]sig{}, psigs: map[string]psig{}}
 	knownStructs = p.structs
 	var b strings.Builder
+	// a function of the imperative part that leaves the translator's subset is left out (with everything that calls it): the
+	// proofs about it — and the properties that rest on them — no longer build, the others still do
+	var untranslated []string
+	safe := func(name string, f func() string) (out string) {
+		defer func() {
+			if r := recover(); r != nil {
+				if os.Getenv("TRDEBUG") != "" {
+					debug.PrintStack()
+				}
+				why := strings.ReplaceAll(fmt.Sprint(r), "-/", "- /")
+				untranslated = append(untranslated, name+": "+why)
+				out = fmt.Sprintf("/- NOT TRANSLATED: %s — %s -/\n", name, why)
+			}
+		}()
+		return f()
+	}
 	b.WriteString("/- GENERATED by extract (translate.go) from /repo's current source: do not edit.\n   Go functions of the subset the translator understands, as Lean definitions; shifts and rotations\n   have Go's semantics (RapidModel/GoSem.lean). -/\nimport RapidModel.GoProg\nimport RapidModel.GoImp\nimport RapidModel.GoProgImp\nimport RapidModel.GoScript\nimport RapidModel.GoEngine\nimport RapidModel.GoBytes\nimport RapidModel.GoStream\nimport RapidModel.GoCheck\n\nset_option linter.unusedVariables false\n\nnamespace Rapid.Translated\n\n")
 	b.WriteString(t.function("bitmask64", "bitmask64"))
 	b.WriteString("\n")
@@ -1121,12 +1137,12 @@ func emitTranslated(p *pkgInfo) (out string, err error) {
 	b.WriteString(t.exprFn("findBugSeedStep", "seed of the next test case in findBug", seedRhs, et, "u64"))
 	b.WriteString("\n/-! ### functions on the bit stream, in continuation-passing style over `Prog` -/\n\n")
 	for _, fn := range []string{"genFloat01", "genGeom", "genUintNNoReject", "genUintNUnbiased", "genUintNBiased", "genUintN", "genUintRange", "flipBiasedCoin", "genIntRange", "genIndex", "find", "filteredGen.maybeValue", "filteredGen.value", "customGen.value", "mappedGen.value", "sampledGen.value", "oneOfGen.value", "Generator.value", "integerGen.value"} {
-		b.WriteString(t.progFunction(fn, true))
+		b.WriteString(safe(fn, func() string { return t.progFunction(fn, true) }))
 		b.WriteString("\n")
 	}
 	b.WriteString("/-! ### floats.go: float64/float32 values are bit patterns here -/\n\n")
 	for _, fn := range []string{"genUfloatRange", "genFloatRange"} {
-		b.WriteString(t.progFunction(fn, false))
+		b.WriteString(safe(fn, func() string { return t.progFunction(fn, false) }))
 		b.WriteString("\n")
 	}
 	b.WriteString("/-! ### data.go: the recording state machine and the two bit streams, in `Go.M` -/\n\n")
@@ -1134,55 +1150,56 @@ func emitTranslated(p *pkgInfo) (out string, err error) {
 	b.WriteString("\n")
 	isigs := map[string]*isig{}
 	for _, fn := range []string{"recordedBits.record", "recordedBits.beginGroup", "recordedBits.endGroup", "recordedBits.removeGroup", "recordedBits.prune", "bufBitStream.drawBits", "randomBitStream.drawBits"} {
-		b.WriteString(t.impFunction(fn, isigs))
+		b.WriteString(safe(fn, func() string { return t.impFunction(fn, isigs) }))
 		b.WriteString("\n")
 	}
 	b.WriteString("/-! ### shrink.go: `minimize` and the minimizer -/\n\n")
 	for _, fn := range []string{"minimizer.accept", "minimizer.rShift", "minimizer.unsetBits", "minimizer.sortBits", "minimizer.binSearch", "minimize", "compareData", "without"} {
-		b.WriteString(t.impFunction(fn, isigs))
+		b.WriteString(safe(fn, func() string { return t.impFunction(fn, isigs) }))
 		b.WriteString("\n")
 	}
 	b.WriteString("/-! ### shrink.go: the passes of the shrinker, in `Go.SM` (reads of the shrinker's state and `accept` are effects) -/\n\n")
 	b.WriteString("/-- the model's group record as the source's `groupInfo` -/\ndef groupInfoOf (g : Rapid.GI) : groupInfo :=\n  { begin := Int64.ofInt (g.begin : Int), end_ := Int64.ofInt g.end_, label := g.label, standalone := g.standalone, discard := g.discard }\n\n")
 	ssigs := map[string]*isig{"without": isigs["without"], "compareData": isigs["compareData"]}
 	for _, fn := range []string{"minimizer.accept", "minimizer.rShift", "minimizer.unsetBits", "minimizer.sortBits", "minimizer.binSearch", "minimize"} {
-		b.WriteString(t.impFunctionMode(fn, ssigs, true, "S"))
+		b.WriteString(safe(fn, func() string { return t.impFunctionMode(fn, ssigs, true, "S") }))
 		b.WriteString("\n")
 	}
 	for _, fn := range []string{"shrinker.removeGroups", "shrinker.minimizeBlocks", "shrinker.lowerFloatHack", "shrinker.removeGroupsAndLower", "shrinker.sortGroups", "shrinker.removeGroupSpans", "shrinker.shrink"} {
-		b.WriteString(t.impFunctionMode(fn, ssigs, true, ""))
+		b.WriteString(safe(fn, func() string { return t.impFunctionMode(fn, ssigs, true, "") }))
 		b.WriteString("\n")
 	}
 	b.WriteString("/-! ### engine.go: the generation loop `findBug`, in `Go.EM` (seeding the stream, running a test case and the early-exit test are requests) -/\n\n")
 	emMode = true
-	b.WriteString(t.impFunctionMode("findBug", map[string]*isig{}, true, ""))
+	b.WriteString(safe("findBug", func() string { return t.impFunctionMode("findBug", map[string]*isig{}, true, "") }))
 	emMode = false
 	b.WriteString("\n")
 	b.WriteString("/-! ### engine.go: `checkFailFile` and `doCheck`, in `Go.CM` (loading a fail file, running one test case on a fresh `*T`, the generation loop and the shrinker are requests) -/\n\n")
 	emMode, ckMode = true, true
 	csigs := map[string]*isig{}
-	b.WriteString(t.impFunctionMode("checkFailFile", csigs, true, ""))
+	b.WriteString(safe("checkFailFile", func() string { return t.impFunctionMode("checkFailFile", csigs, true, "") }))
 	b.WriteString("\n")
-	b.WriteString(t.impFunctionMode("doCheck", csigs, true, ""))
+	b.WriteString(safe("doCheck", func() string { return t.impFunctionMode("doCheck", csigs, true, "") }))
 	emMode, ckMode = false, false
 	b.WriteString("\n")
 	b.WriteString("/-! ### engine.go: the bytes of a fuzz input as 64-bit words (`checkFuzz`) -/\n\n")
-	b.WriteString(t.impFragment("checkFuzz", "checkFuzz_words", func(i int, s ast.Stmt) bool {
+	b.WriteString(safe("checkFuzz", func() string { return t.impFragment("checkFuzz", "checkFuzz_words", func(i int, s ast.Stmt) bool {
 		if ds, ok := s.(*ast.DeclStmt); ok {
 			return strings.Contains(exprText(p.fset, ds.Decl.(*ast.GenDecl).Specs[0].(*ast.ValueSpec).Names[0]), "buf")
 		}
 		_, isFor := s.(*ast.ForStmt)
 		return isFor
-	}, [][2]string{{"input", "[]u8"}}, "buf", "[]u64", "the statements that turn `input` into the buffer `buf` of the bit stream"))
+	}, [][2]string{{"input", "[]u8"}}, "buf", "[]u64", "the statements that turn `input` into the buffer `buf` of the bit stream") }))
 	b.WriteString("\n")
 	b.WriteString("/-! ### utils.go: `repeat.more`, in `Go.StM` (groups that are opened by one call and closed by the next) -/\n\n")
 	stMode = true
-	b.WriteString(t.impFunctionMode("repeat.more", map[string]*isig{}, true, ""))
+	b.WriteString(safe("repeat.more", func() string { return t.impFunctionMode("repeat.more", map[string]*isig{}, true, "") }))
 	stMode = false
 	b.WriteString("\n")
 	b.WriteString("/-! ### persist.go: the content of a fail file (strings are byte lists, library calls the model's ports) -/\n\n")
-	b.WriteString(t.persistFunctions())
+	b.WriteString(safe("persist.go", func() string { return t.persistFunctions() }))
 	b.WriteString("\n")
+	b.WriteString("/-- functions of the imperative part that the translator had to leave out in this run (with the reason) -/\ndef untranslated : List String := " + leanList(untranslated) + "\n\n")
 	b.WriteString("end Rapid.Translated\n")
 	return b.String(), nil
 }
